@@ -15,17 +15,19 @@ import (
 //
 // statements: expr print var varlist block if while for break continue return fun
 type Node struct {
-	Kind string
-	Op   string // operator spelling class ("||" for both spellings)
-	Name string // identifier / property / function name
-	Num  float64
-	Str  string
-	Bool bool
-	Kids []*Node  // fixed child positions, nil where absent
-	Keys []string // object keys in source order; parameter names for fun
-	Line int      // line used for diagnostics of this node's own operation
-	Tok  int      // index of the first token of the node
-	End  int      // index one past the last token of the node
+	Kind      string
+	Op        string // operator spelling class ("||" for both spellings)
+	Name      string // identifier / property / function name
+	Num       float64
+	Str       string
+	Bool      bool
+	Kids      []*Node  // fixed child positions, nil where absent
+	Keys      []string // object keys in source order; parameter names for fun
+	Line      int      // line used for diagnostics of this node's own operation
+	Tok       int      // index of the first token of the node
+	NameTok   int      // index of the token carrying Name (var, fun, assign, ident), -1 when none
+	ParamToks []int    // fun: token indexes of the parameters
+	End       int      // index one past the last token of the node
 }
 
 // Binary operator levels, low to high.  All left-associative.
@@ -135,14 +137,16 @@ func (p *Parser) funDecl() *Node {
 		p.fail("reserved name")
 	}
 	name := p.expect("IDENT")
+	nameTok := p.pos - 1
 	p.expect("(")
-	n := &Node{Kind: "fun", Name: name.Lexeme, Line: name.Line, Tok: start}
+	n := &Node{Kind: "fun", Name: name.Lexeme, Line: name.Line, Tok: start, NameTok: nameTok}
 	if !p.at(")") {
 		for {
 			if len(n.Keys) >= p.MaxParams {
 				p.fail("too many parameters")
 			}
 			n.Keys = append(n.Keys, p.expect("IDENT").Lexeme)
+			n.ParamToks = append(n.ParamToks, p.pos-1)
 			if !p.accept(",") {
 				break
 			}
@@ -173,7 +177,7 @@ func (p *Parser) varDecl() *Node {
 			p.fail("reserved name")
 		}
 		name := p.expect("IDENT")
-		d := &Node{Kind: "var", Name: name.Lexeme, Line: name.Line, Tok: p.pos - 1, Kids: []*Node{nil}}
+		d := &Node{Kind: "var", Name: name.Lexeme, Line: name.Line, Tok: p.pos - 1, NameTok: p.pos - 1, Kids: []*Node{nil}}
 		if p.accept("=") {
 			d.Kids[0] = p.expression()
 		}
@@ -282,7 +286,7 @@ func (p *Parser) expression() *Node {
 		val := p.expression()
 		switch left.Kind {
 		case "ident":
-			return &Node{Kind: "assign", Name: left.Name, Kids: []*Node{val}, Line: eq.Line, Tok: start, End: p.pos}
+			return &Node{Kind: "assign", Name: left.Name, Kids: []*Node{val}, Line: eq.Line, Tok: start, End: p.pos, NameTok: left.NameTok}
 		case "index":
 			return &Node{Kind: "setindex", Kids: []*Node{left.Kids[0], left.Kids[1], val}, Line: eq.Line, Tok: start, End: p.pos}
 		case "prop":
@@ -390,7 +394,7 @@ func (p *Parser) primary() *Node {
 		return &Node{Kind: "str", Str: t.Str, Line: t.Line, Tok: start, End: p.pos}
 	case "IDENT":
 		p.pos++
-		return &Node{Kind: "ident", Name: t.Lexeme, Line: t.Line, Tok: start, End: p.pos}
+		return &Node{Kind: "ident", Name: t.Lexeme, Line: t.Line, Tok: start, End: p.pos, NameTok: start}
 	case "(":
 		p.pos++
 		e := p.expression()
